@@ -4,9 +4,13 @@
    (interpreter/coverage.go over a small statement language), Model/TestRunInst.v (the instance run
    against `falco test`); proofs in Proofs/TestRun*.v. *)
 From Coq Require Import List NArith Bool Permutation.
+From Coq Require Strings.String.
+Import Strings.String.StringSyntax.
+Delimit Scope string_scope with string.
 From Falco Require Import Base.Res Model.StoreSyntax Model.Store Proofs.StoreHeap Proofs.StoreInv
   Model.TestRun Model.TestRunCover Model.TestRunInst
-  Proofs.TestRunProofs Proofs.TestRunCoverProofs Proofs.TestRunBridge.
+  Proofs.TestRunProofs Proofs.TestRunCoverProofs Proofs.TestRunBridge
+  Gen.TestRunHelpers Proofs.TestRunHelpersTie.
 Import ListNotations.
 
 (* A test body (any sequence of statements and assertions, any interpreter) is reported failed
@@ -179,6 +183,25 @@ Theorem C10_coverage_independent_instance :
   forall P ts, irun_file true P ts = irun_file false P ts.
 Proof. exact inst_coverage_independent. Qed.
 
+(* The registry of test-only functions, regenerated from tester/function/functions.go on every run
+   (Gen/TestRunHelpers.v): every name is wired to its own implementation (`assert.equal_fold` to
+   Assert_equal_fold, ...; the coverage.* markers to Coverage), and exactly the assert* functions
+   report to the pass / fail counter - the runner model lets only [Assert] steps move the verdict. *)
+Theorem C10_helpers_wired :
+  forall e, In e helpers ->
+    (is_coverage (fst e) = false -> fst (snd e) = [canon (fst e)]) /\
+    (snd (snd e) = true <-> is_assert (fst e) = true).
+Proof. exact helpers_wired. Qed.
+
+Theorem C10_helper_names_distinct : nodupb (map fst helpers) = true.
+Proof. exact helpers_names_distinct. Qed.
+
+(* witnesses: the repaired entry is in the table, and the entry as it was before the repair is refused *)
+Theorem C10_equal_fold_wired_example :
+  In ("assert.equal_fold", (["Assert_equal_fold"], true))%string helpers /\
+  wiredb ("assert.equal_fold", (["Assert_equal"], true))%string = false.
+Proof. exact (conj equal_fold_wired equal_fold_miswired_refused). Qed.
+
 Print Assumptions C10_verdict_iff.
 Print Assumptions C10_exit_iff_fail.
 Print Assumptions C10_exit_zero_iff.
@@ -197,3 +220,6 @@ Print Assumptions C10_instrument_equiv.
 Print Assumptions C10_instrument_regroup_refuted.
 Print Assumptions C10_quiet_condition_in_store_model.
 Print Assumptions C10_coverage_independent_instance.
+Print Assumptions C10_helpers_wired.
+Print Assumptions C10_helper_names_distinct.
+Print Assumptions C10_equal_fold_wired_example.
